@@ -191,6 +191,12 @@ func (d *OrderedDaemon) BackgroundWorker(name string, handler WorkerFunc, order 
 	d.lock.Lock()
 	defer d.lock.Unlock()
 
+	// check again while holding the lock: the shutdown sets the stopped flag before it collects the workers (under the
+	// lock), so a worker that passes this check is still seen and stopped by a concurrent shutdown.
+	if d.IsStopped() {
+		return ErrDaemonAlreadyStopped
+	}
+
 	exWorker, workerExistsAlready := d.workers[name]
 	if workerExistsAlready {
 		if !d.running.Load() {
